@@ -137,11 +137,14 @@ impl crux_core::App for DApp {
     }
 }
 
-#[derive(Clone, Debug, PartialEq, Eq, Serialize, Deserialize)]
+#[derive(Clone, Debug, Serialize, Deserialize)]
 pub enum DStep {
     Event(DEvent),
     /// `n` directly held timer commands, each answered and cleared between two polls
     DirectTimers { n: u8, at: bool },
+    /// a history of generated command programs driven through the bincode bridge: the serialized
+    /// effect batches (byte for byte, order included) and the applied events must replay identically
+    CmdHistory(Box<crate::cmd::gen::Scenario>),
     /// answer the k-th outstanding request (modulo), payload chosen by its type
     Answer { k: u8, status: u16, resp_headers: Vec<(String, String)>, value: Vec<u8> },
 }
@@ -226,6 +229,29 @@ pub fn trial(steps: &[DStep]) -> Result<Vec<Vec<u8>>, Violation> {
         let clock0 = crate::seams::CLOCK_CALLS.load(Ordering::SeqCst);
         let rnd0 = crate::seams::GETRANDOM_CALLS.load(Ordering::SeqCst);
         let res = match st {
+            DStep::CmdHistory(scn) => {
+                use crate::cmd::gen::Action;
+                let mut host = crate::cmd::hosts::make_host(scn.host);
+                for step in &scn.steps {
+                    for a in step {
+                        match a {
+                            Action::Event(ev) => {
+                                let _ = host.send_event(ev.clone());
+                            }
+                            Action::Resolve { site, arg, v } => {
+                                if host.holds((*site, *arg)) {
+                                    let _ = host.resolve((*site, *arg), *v);
+                                }
+                            }
+                            _ => {}
+                        }
+                    }
+                    let obs = host.settle();
+                    out.extend(host.take_raw());
+                    out.push(format!("{:?}", obs.new_log).into_bytes());
+                }
+                continue;
+            }
             DStep::DirectTimers { n, at } => {
                 let mut d = String::new();
                 for i in 0..*n {
@@ -411,6 +437,9 @@ impl Check for C11Check {
         for _ in 0..4 {
             steps.push(DStep::Answer { k: rng.below(250) as u8, status: 200, resp_headers: gen_header_set(rng, 3), value: vec![1, 2, 3] });
         }
+        if rng.chance(1, 3) {
+            steps.push(DStep::CmdHistory(Box::new(gen_cmd_history(rng))));
+        }
         if rng.chance(1, 4) {
             // both things a timer waits on become ready between two polls: which one it reports must not
             // depend on anything but the history
@@ -564,6 +593,7 @@ impl Check for C11Check {
                     DStep::Event(_) => 4,
                     DStep::Answer { k, .. } => 1000 + u64::from(*k % 4),
                     DStep::DirectTimers { n, at } => 2000 + u64::from(*n) + if *at { 10 } else { 0 },
+                    DStep::CmdHistory(c) => 3000 + c.steps.len() as u64,
                 },
             );
         }
@@ -600,6 +630,63 @@ impl Check for C11Check {
         }
         out
     }
+}
+
+/// command programs for the replay check: a join fan-in (several tasks awaiting one handle) up front, then
+/// generated programs; no races (the point is the order of what is emitted, which must not vary)
+fn gen_cmd_history(rng: &mut Rng) -> crate::cmd::gen::Scenario {
+    use crate::cmd::ast::{Cmd, Leaf, OpKind, Stmt, Task};
+    use crate::cmd::gen::{gen_script, GenCfg, ProgGen, Scenario, ScriptCfg};
+    use crate::cmd::hosts::HostSel;
+    let host = *rng.pick(&[HostSel::BridgeBincode, HostSel::BridgeBincodeFx]);
+    let mut cfg = GenCfg::swarm(rng, false);
+    cfg.select = false;
+    cfg.abort_cmd = false;
+    cfg.abort_task = false;
+    cfg.legacy = false;
+    cfg.cap_in_cmd = false;
+    cfg.bursts = false;
+    let mut programs = vec![];
+    if rng.chance(2, 3) {
+        let base = 7000u32;
+        let k = rng.range(5, 9) as u32;
+        let mut stmts = vec![Stmt::Spawn { slot: Some(base + 1), task: Task { label: base + 1, stmts: vec![Stmt::Request(Leaf { site: base + 1, op: OpKind::A })] } }];
+        for i in 0..k {
+            stmts.push(Stmt::Spawn {
+                slot: None,
+                task: Task {
+                    label: base + 10 + i,
+                    stmts: vec![Stmt::Join(base + 1), Stmt::Request(Leaf { site: base + 10 + i, op: OpKind::A }), Stmt::Emit { tag: base + 30 + i, cont: None }],
+                },
+            });
+        }
+        programs.push(Cmd::Async(Task { label: base, stmts }));
+    }
+    for i in 0..rng.range(1, 2) {
+        let mut g = ProgGen::new(rng, cfg.clone(), (i as u32 + 1) * 1000);
+        let d = g.cfg.max_depth;
+        programs.push(g.cmd(d));
+    }
+    let sc = ScriptCfg {
+        max_steps: rng.range(4, 30) as u32,
+        max_batch: 1,
+        drops: false,
+        bridge_drops: false,
+        bad_items: false,
+        dups: false,
+        aborts: false,
+        noops: true,
+        drop_roots: false,
+        drop_all: false,
+        order_bias: rng.below(3) as u8,
+        stream_items: 3,
+        force_batch1: true,
+        bridge_dups: false,
+        abort_before_poll: false,
+        legacy_drops: false,
+    };
+    let so = gen_script(rng, programs, host, &sc);
+    Scenario { host, steps: so.steps, hash_seed: 0, buggify: false, drain_from: so.drain_from, adaptive_drain: false, defer_drops: false, bridge_dups: false, legacy_drops: false }
 }
 
 fn differ_kind(d: &Differ) -> &'static str {
